@@ -16,12 +16,15 @@ def sh(cmd, cwd=None, timeout=1800):
     return r.returncode, r.stdout + r.stderr
 
 
+only = int(sys.argv[2]) if len(sys.argv) > 2 else None
 for n in (1, 2, 3, 4):
+    if only and n != only:
+        continue
     pf = os.path.join(src, 'patch%d.diff' % n)
     if not os.path.exists(pf):
         continue
     prop = json.load(open(os.path.join(src, 'meta%d.json' % n)))['property'].strip().split()[0].rstrip(',')
-    wt = '/tmp/confirm_%s_%d_%d' % (prop, rnd, n)
+    wt = '/tmp/confirm_%s_%s_%d_%d' % (area, prop, rnd, n)
     sh(['git', '-C', '/repo', 'worktree', 'remove', '--force', wt])
     rc, out = sh(['git', '-C', '/repo', 'worktree', 'add', '--detach', wt, 'HEAD'])
     conf = {}
